@@ -517,6 +517,13 @@ func (w *Worktree) doAddFile(cfg *config.Config, idx *index.Index, s Status, pat
 		}
 	}
 
+	if s != nil && s.File(path).Worktree == Deleted {
+		// The file is gone, or a directory has taken its place (or a file
+		// the place of its directory): there is nothing to read at path.
+		h, err = w.deleteFromIndex(idx, path)
+		return err == nil, h, err
+	}
+
 	h, err = w.copyFileToStorage(cfg, path)
 	if err != nil {
 		if os.IsNotExist(err) {
